@@ -2,3 +2,4 @@ SPECIFICATION GenSpec
 CONSTANTS
   MaxLines = 3
   LenClasses = {"t", "h", "m"}
+  LayoutSet <- Layouts
